@@ -10,6 +10,6 @@ mkdir -p /tmp/seedrun-out && cp /verif/known_findings.json /tmp/seedrun-out/
 for prop in "$@"; do
   case "$prop" in C02|C03|C04|C05|C06|C07|C08|C10|C11|C12|C13|C14) pkg=marketsim; bin=marketsim ;; *) pkg=gmxsim; bin=gmxsim ;; esac
   (cd /verif/sim && cargo build --release --offline -p $pkg --bin $bin >/tmp/seedrun-out/build.log 2>&1) || { echo "SEED $(basename $dir) [$prop]: BUILD FAILED"; continue; }
-  res=$(cd /verif/sim && VERIF_DIR=/tmp/seedrun-out ./target/release/$bin check --property $prop --tier quick 2>&1 | grep -E "VIOLATION|^OK|oracle=|HARNESS" | head -3 | cut -c1-300 | tr '\n' ' ')
+  res=$(cd /verif/sim && VERIF_DIR=/tmp/seedrun-out ./target/release/$bin check --property $prop --tier quick 2>&1 | grep -v "^KNOWN-FINDING" | grep -E "VIOLATION|^OK|oracle=|HARNESS" | head -3 | cut -c1-300 | tr '\n' ' ')
   echo "SEED $(basename $dir) [$prop]: $res"
 done
